@@ -4,7 +4,7 @@ VIEW view
 CONSTANTS
   PNorm <- AlphaSh
   PLit <- LitSh
-  PMacro <- NoChars
+  PMacro <- ShellMacros
   PLen = 3
   SAlpha <- StrTiny
   SLen = 3
